@@ -196,6 +196,14 @@ func c01Run(c *core.Ctx) {
 			check(strings.ReplaceAll(t, "%s", n), false, 6)
 		}
 	}
+	// (ii-d) scale family: one shape per size around typical thresholds
+	for i, sp := range gen.Scale(c.Thorough()) {
+		if !c.Mine(int64(i)) || c.Tick() {
+			continue
+		}
+		c.Inc("scale_programs")
+		check(sp.Src, false, 1000+len(sp.Src))
+	}
 	// (iii) executable statement family x layouts
 	level, k := 1, 1
 	if c.Thorough() {
